@@ -179,6 +179,16 @@ func LoadKnown(path string) (*KnownFile, error) {
 	return kf, sc.Err()
 }
 
+// peek is match without marking the entry as used.
+func (kf *KnownFile) peek(prop string, f Finding) *Known {
+	for _, k := range kf.Known {
+		if k.Prop == prop && k.Rule == f.Rule && k.Site == f.Site {
+			return k
+		}
+	}
+	return nil
+}
+
 func (kf *KnownFile) match(prop string, f Finding) *Known {
 	for _, k := range kf.Known {
 		if k.Prop == prop && k.Rule == f.Rule && k.Site == f.Site {
@@ -220,9 +230,68 @@ func (r *Result) Finish(ri *runInfo, kf *KnownFile) int {
 	}
 	r.Findings = uniq
 
+	// a known finding whose construct moved (its function was split or renamed): the listed site is
+	// no longer reported, and exactly one unlisted finding of the same rule in the same package has
+	// the same construct text — it is the same defect at its new address
+	moved := map[string]*Known{}
+	{
+		reported := map[string]bool{}
+		for _, f := range r.Findings {
+			reported[f.Rule+"|"+f.Site] = true
+		}
+		tail := func(site string) (pkg, t string) {
+			i := strings.Index(site, "#")
+			if i < 0 {
+				return "", ""
+			}
+			fnKey, rest := site[:i], site[i:]
+			if j := strings.LastIndex(rest, "#"); j > 0 {
+				digits := j+1 < len(rest)
+				for _, ch := range rest[j+1:] {
+					if ch < '0' || ch > '9' {
+						digits = false
+					}
+				}
+				if digits {
+					rest = rest[:j]
+				}
+			}
+			if j := strings.Index(fnKey, "."); j >= 0 {
+				fnKey = fnKey[:j]
+			}
+			return fnKey, rest
+		}
+		for _, k := range kf.Known {
+			if k.Prop != r.Prop || reported[k.Rule+"|"+k.Site] {
+				continue
+			}
+			kp, kt := tail(k.Site)
+			if kt == "" {
+				continue
+			}
+			var cands []Finding
+			for _, f := range r.Findings {
+				if f.Rule != k.Rule || kf.peek(r.Prop, f) != nil {
+					continue
+				}
+				if fp, ft := tail(f.Site); fp == kp && ft == kt {
+					cands = append(cands, f)
+				}
+			}
+			if len(cands) == 1 {
+				moved[cands[0].Rule+"|"+cands[0].Site] = k
+			}
+		}
+	}
 	violations := 0
 	var knownHit []string
 	for _, f := range r.Findings {
+		if k := moved[f.Rule+"|"+f.Site]; k != nil {
+			k.used = true
+			fmt.Printf("KNOWN-FINDING: property=%s rule=%s site=%s (listed as %s; the construct moved) %s (%s)\n", r.Prop, f.Rule, f.Site, k.Site, k.Desc, f.Pos)
+			knownHit = append(knownHit, f.Rule+" "+f.Site)
+			continue
+		}
 		if k := kf.match(r.Prop, f); k != nil {
 			fmt.Printf("KNOWN-FINDING: property=%s rule=%s site=%s %s (%s)\n", r.Prop, f.Rule, f.Site, k.Desc, f.Pos)
 			knownHit = append(knownHit, f.Rule+" "+f.Site)
